@@ -74,6 +74,30 @@ def sanitize(e, own):
     return out
 
 
+def draw_delta(draw, model, pts):
+    """delta: default, 0, huge, or just above / below the reference |g| of some state at the first point"""
+    mode = draw(st.sampled_from(["default", "zero", "huge", "above", "below", "above", "below"]))
+    delta = 1e-8
+    if mode == "zero":
+        delta = 0.0
+    elif mode == "huge":
+        delta = 1e3
+    elif mode in ("above", "below") and pts:
+        gs = []
+        sr = schemeref.SchemeRef(model, pts[0], 0.01)
+        for s in model["states"]:
+            try:
+                g = sr.g(s["name"])
+            except (refsem.RefError, diff.NotDifferentiable):
+                g = None
+            if g is not None and g.val != 0:
+                gs.append(abs(float(g.val)))
+        if gs:
+            g0 = draw(st.sampled_from(gs))
+            delta = 2 * g0 if mode == "above" else g0 / 2
+    return delta
+
+
 def strategy(tier):
     c = CFG_Q if tier == "quick" else CFG_T
 
@@ -97,26 +121,7 @@ def strategy(tier):
                     a["expr"] = ["bin", "-", a["expr"], ["bin", "*", ["num", "0.25"], ["call", "Mod", A, B_]]]
         need = [X.deriv_name(s["name"]) for s in model["states"]]
         pts = G.draw_points(draw, model, 3, need)
-        # delta relative to the reference g at the first point
-        mode = draw(st.sampled_from(["default", "zero", "huge", "above", "below", "above", "below"]))
-        delta = 1e-8
-        if mode == "zero":
-            delta = 0.0
-        elif mode == "huge":
-            delta = 1e3
-        elif mode in ("above", "below") and pts:
-            gs = []
-            sr = schemeref.SchemeRef(model, pts[0], 0.01)
-            for s in model["states"]:
-                try:
-                    g = sr.g(s["name"])
-                except (refsem.RefError, diff.NotDifferentiable):
-                    g = None
-                if g is not None and g.val != 0:
-                    gs.append(abs(float(g.val)))
-            if gs:
-                g0 = draw(st.sampled_from(gs))
-                delta = 2 * g0 if mode == "above" else g0 / 2
+        delta = draw_delta(draw, model, pts)
         return {
             "model": model,
             "points": pts,
